@@ -228,6 +228,8 @@ def instances(tier):
     for kind in ('uni', 'cheb'):
         out.append({'func': 'h_scalar_options', 'params': {'d': 2, 'kind': kind}})
     out.append({'func': 'h_bad_options', 'params': {}})
+    if tier == 'experimental':
+        out.append({'func': 'h_uni_roundtrip_fl', 'params': {}})
     for kind in ('uni', 'cheb'):
         out.append({'func': 'h_reuse_options', 'params': {'kind': kind}})
     for n in ([[2, 3], [3, 2, 2]] if quick else [[2, 3], [3, 2, 2], [3, 3, 3], [2, 2, 2, 2]]):
@@ -247,3 +249,36 @@ OUTSIDE = ('IEEE rounding of the maps (exact real arithmetic here); Chebyshev gr
            'cosines modelled); symbolic scalar options (the scalar path is exercised with concrete scalars)')
 ASSUMPTIONS = ['exact real arithmetic', 'cdf_getter: 1./len(x) is a concrete float step, values compared within 1e-12', 'arccos modelled as a strictly decreasing function exact at the cosine values of the grid',
                'np.rint: integer within 1/2, ties to even']
+
+
+def h_uni_roundtrip_fl(ctx):
+    """Uniform grid round trip in the standard model of floating point arithmetic
+    (every operation of the real code multiplied by 1 + delta, |delta| <= 2^-53),
+    for ALL real a < b, integers n >= 2, 0 <= i <= n-1 with the conditioning bound
+    (n-1)(|a|+|b|) <= 2^40 (b-a).  (Without a bound the statement is false in float64.)"""
+    a = vec(ctx, 'a', 1)
+    b = vec(ctx, 'b', 1)
+    ctx.assume(ctx.lt(a[0], b[0]))
+    n = np.empty(1, dtype=object if is_sym(ctx) else int)
+    i = np.empty(1, dtype=object if is_sym(ctx) else int)
+    n[0] = ctx.integer('n')
+    i[0] = ctx.integer('i')
+    ctx.assume(ctx.ge(n[0], 2))
+    ctx.assume(ctx.ge(i[0], 0))
+    ctx.assume(ctx.le(i[0], n[0] - 1))
+    K = 2 ** 40
+    for sa in (1, -1):
+        for sb in (1, -1):
+            ctx.assume(ctx.le((a[0] * sa + b[0] * sb) * (n[0] - 1), (b[0] - a[0]) * K),
+                       'conditioning: (n-1)(|a|+|b|) <= 2^40 (b-a)')
+    if is_sym(ctx):
+        ctx.fl_on = True
+    try:
+        X = teneva.ind_to_poi(i, a, b, n, 'uni')
+        J = teneva.poi_to_ind(X, a, b, n, 'uni')
+    finally:
+        if is_sym(ctx):
+            ctx.fl_on = False
+    ctx.claim('roundtrip_in_float_model', ctx.eq(J[0], i[0]))
+    if is_sym(ctx):
+        ctx.claim('rounded_operations_modelled', ctx.fl_count >= 6)
